@@ -32,7 +32,7 @@ Proof. split; [vm_compute; reflexivity|]. eexists. vm_compute. repeat split. Qed
 Lemma w2_rename_sided :
   ops_sided (col_clone (next w2)) true (hp (fst w2_run)) [VSetName 20 (Some 9%N)].
 Proof.
-  simpl. split; [|exact I]. split.
+  cbn [ops_sided]. split; [|exact I]. split.
   - intros x [<-|[]]. split; vm_compute; reflexivity.
   - intros x [].
 Qed.
@@ -54,3 +54,20 @@ Proof. intros H; vm_compute in H; discriminate H. Qed.
 Lemma w2_attr_set_keeps_original :
   mcanon (cells (apply_ops (hp (fst w2_run)) [NSetAttr 21 2%N 2%N 5%N; NDelAttr 21 2%N])) 3 15 = mcanon (cells w2) 3 15.
 Proof. vm_compute. reflexivity. Qed.
+
+(* the hypotheses of the rename-free theorems are satisfiable by a non-trivial history: after const_value = None
+   the same rename no longer touches a tensor *)
+Lemma w2_no_trename_history :
+  ops_sided (col_clone (next w2)) true (hp (fst w2_run)) [VSetDoc 20 (Some 9%N); VSetConst 20 None; VSetName 20 (Some 9%N)] /\
+  ops_no_trename (hp (fst w2_run)) [VSetDoc 20 (Some 9%N); VSetConst 20 None; VSetName 20 (Some 9%N)] /\
+  mcanon (cells (apply_ops (hp (fst w2_run)) [VSetDoc 20 (Some 9%N); VSetConst 20 None; VSetName 20 (Some 9%N)])) 3 15
+  = mcanon (cells w2) 3 15.
+Proof.
+  split; [|split].
+  - cbn [ops_sided].
+    split; [split; [intros y [<-|[]]; split; vm_compute; reflexivity|intros y []]|].
+    split; [split; [intros y [<-|[]]; split; vm_compute; reflexivity|intros y []]|].
+    split; [split; [intros y [<-|[]]; split; vm_compute; reflexivity|intros y []]|exact I].
+  - cbn [ops_no_trename]. repeat split; vm_compute; reflexivity.
+  - vm_compute. reflexivity.
+Qed.
